@@ -1,0 +1,59 @@
+//go:build verif
+
+package graph
+
+import (
+	parser "github.com/shivasurya/code-pathfinder/sourcecode-parser/antlr"
+	sitter "github.com/smacker/go-tree-sitter"
+)
+
+// Verification hooks: settable from an external harness, nil by default.
+var (
+	VerifBeforeFile func(path string)
+	VerifOnMerge    func(local *CodeGraph)
+	VerifCountOp    func()
+)
+
+func verifBeforeFile(path string) {
+	if VerifBeforeFile != nil {
+		VerifBeforeFile(path)
+	}
+}
+
+func verifOnMerge(local *CodeGraph) {
+	if VerifOnMerge != nil {
+		VerifOnMerge(local)
+	}
+}
+
+func verifCountOp() {
+	if VerifCountOp != nil {
+		VerifCountOp()
+	}
+}
+
+// Exported aliases of unexported functions and fields, for the harness only.
+
+func VerifBuildGraphFromAST(node *sitter.Node, sourceCode []byte, graph *CodeGraph, currentContext *Node, file string) {
+	buildGraphFromAST(node, sourceCode, graph, currentContext, file)
+}
+
+func VerifGenerateProxyEnv(node *Node, query parser.Query) map[string]interface{} {
+	return generateProxyEnv(node, query)
+}
+
+func VerifCartesianProduct(sets [][]interface{}) [][]interface{} {
+	return cartesianProduct(sets)
+}
+
+func VerifGetFiles(directory string) ([]string, error) {
+	return getFiles(directory)
+}
+
+func VerifGenerateOutput(nodeSet [][]*Node, query parser.Query) [][]interface{} {
+	return generateOutput(nodeSet, query)
+}
+
+func VerifNodeHasAccess(n *Node) bool { return n.hasAccess }
+
+func VerifNodeIsJavaSourceFile(n *Node) bool { return n.isJavaSourceFile }
